@@ -306,6 +306,87 @@ class Harness:
         return w.last
 
 
+def special_population_case(case):
+    """Populations with a twist the pools do not have: agents whose CLASS carries a component of a template type (a
+    class component is shared data of the class, not something each instance carries), and residents of a spatial
+    world that gave up their position component after joining.  Every template x tag filter; picks and shuffles
+    under every answer script."""
+    from mc.engine.seams import reset_library
+    import ECAgent.Environments as Envs
+    reset_library()
+    m = new_model(seed=1)
+    PC = Envs.PositionComponent
+    types = dict(TYPES)
+    if case['how'] == 'class_component':
+        Herd = type('Herd', (Core.Agent,), {})
+        Herd.add_class_component(X(Herd, m))
+        Flock = type('Flock', (Herd,), {})
+        Flock.add_class_component(Y(Flock, m))
+        env = m.environment
+        agents = [Herd('h1', m), Herd('h2', m, tag=1), Core.Agent('p', m), Flock('f', m), Core.Agent('q', m, tag=1)]
+        agents[1].add_component(Y(agents[1], m))
+        agents[2].add_component(X(agents[2], m))
+        agents[3].add_component(Z(agents[3], m))
+        for a in agents:
+            env.add_agent(a)
+        tmpls = TEMPLATES
+    else:
+        env = m.environment = (Envs.GridWorld(m, 3, 3) if case['how'] == 'grid_unpositioned' else
+                               Envs.SpaceWorld(m, 3.0, 3.0, 0))
+        types['P'] = PC
+        agents = [Core.Agent(k, m, tag=t) for k, t in (('a', 0), ('b', 1), ('c', 0), ('d', 1))]
+        agents[0].add_component(X(agents[0], m))
+        agents[1].add_component(X(agents[1], m))
+        agents[3].add_component(Y(agents[3], m))
+        for i, a in enumerate(agents):
+            env.add_agent(a, i % 3, i // 3)
+        for a in (agents[1], agents[3]):      # b and d stay in the world but no longer carry a position
+            try:
+                a.remove_component(PC)
+            except Exception:      # noqa - a library that refuses this leaves them positioned: the filter below follows
+                pass
+        tmpls = [(), ('P',), ('P', 'X'), ('X', 'P'), ('Y', 'P'), ('X',), ('P', 'P'), ('P', 'X', 'Y')]
+    n = 0
+    real = m.random
+    for tmpl in tmpls:
+        targs = [types[t] for t in tmpl]
+        for tag in (None, 0, 1, 'np1'):
+            kw = {} if tag is None else {'tag': tag_value(tag)}
+            exp = [a for a in agents if all(T in a.components for T in targs) and (tag is None or a.tag == tag_value(tag))]
+            what = f'{case["how"]}: template {list(tmpl)} tag {tag}'
+            got = env.get_agents(*targs, **kw)
+            n += 1
+            if not isinstance(got, list) or len(got) != len(exp) or any(g is not e for g, e in zip(got, exp)):
+                raise Violation(f'{what}: get_agents differs from the agents that carry every listed component',
+                                expected=[a.id for a in exp], observed=[getattr(a, 'id', repr(a)) for a in got])
+            picks = set()
+
+            def pick(rng):
+                m.random = rng
+                return env.get_random_agent(*targs, **kw)
+            for script, res, rng in enumerate_scripts(pick):
+                n += 1
+                if (res is None) != (not exp) or (res is not None and not any(res is e for e in exp)):
+                    raise Violation(f'{what}: get_random_agent returned an agent outside the filter',
+                                    expected=[a.id for a in exp], observed=getattr(res, 'id', None))
+                if res is not None:
+                    picks.add(res.id)
+            if picks != {a.id for a in exp}:
+                raise Violation(f'{what}: not every matching agent is reachable by get_random_agent',
+                                expected=sorted(a.id for a in exp), observed=sorted(picks))
+
+            def shuf(rng):
+                m.random = rng
+                return env.shuffle(*targs, **kw)
+            for script, res, rng in enumerate_scripts(shuf):
+                n += 1
+                if sorted(a.id for a in res) != sorted(a.id for a in exp):
+                    raise Violation(f'{what}: shuffle is not a permutation of the filtered agents',
+                                    expected=[a.id for a in exp], observed=[a.id for a in res])
+            m.random = real
+    return n
+
+
 def in_system_case(case):
     """Queries made from inside one System.execute(): the same query is repeated after an agent was re-tagged, after a
     component was attached to / detached from a resident, and after an agent joined - each answer reflects the
@@ -467,6 +548,16 @@ def run(ctx):
             ctx.report(case, v)
             return
     ctx.leg('class_churn_and_detached_env', cases=len(extra))
+    for how in ('class_component', 'grid_unpositioned', 'space_unpositioned'):
+        case = {'leg': 'special_population', 'how': how}
+        ctx.traces += 1
+        try:
+            ctx.transitions += hbfs._guard(special_population_case, case)
+            ctx.outcome(('special', how))
+        except Violation as v:
+            ctx.report(case, v)
+            return
+    ctx.leg('special_population', cases=3)
     for p in POOLS:
         case = {'leg': 'in_system', 'pool': p}
         ctx.traces += 1
@@ -492,6 +583,9 @@ def explore_pool(ctx, p):
 
 
 def replay(case):
+    if case['leg'] == 'special_population':
+        hbfs._guard(special_population_case, case)
+        return
     if case['leg'] == 'class_churn':
         hbfs._guard(class_churn_case, case)
         return
